@@ -69,10 +69,16 @@ class PrecipitationStoppingCondition:
 
         Returns bool for whether condition is satisfied or not
         '''
+        return self._compare(self._poll(model, model.pData.n))
+
+    def _compare(self, result):
+        '''
+        Whether a value of the monitored quantity satisfies the condition
+        '''
         if self._condition == Inequality.GREATER_THAN:
-            return self._poll(model, model.pData.n) > self._value
+            return result > self._value
         else:
-            return self._poll(model, model.pData.n) < self._value
+            return result < self._value
     
     def testCondition(self, model):
         '''
@@ -89,7 +95,11 @@ class PrecipitationStoppingCondition:
                 if model.pData.n > 0:
                     currVal, currTime = self._poll(model, model.pData.n), model.pData.time[model.pData.n]
                     prevVal, prevTime = self._poll(model, model.pData.n-1), model.pData.time[model.pData.n-1]
-                    self._satisfiedTime = (currTime - prevTime) * (self._value - prevVal) / (currVal - prevVal) + prevTime
+                    if self._compare(prevVal):
+                        #Condition was already met at the start of the step, so there is no crossing to interpolate
+                        self._satisfiedTime = prevTime
+                    else:
+                        self._satisfiedTime = (currTime - prevTime) * (self._value - prevVal) / (currVal - prevVal) + prevTime
                 else:
                     self._satisfiedTime = model.pData.time[model.pData.n]
 
